@@ -4,4 +4,5 @@
 package unlocker
 
 //@ iface Service.UnlockAccount(self, ctx, wallet, account)
+//@ ensures result1 == nil ==> (result0 <==> unlockOk(self, account))
 //@ iface Service.UnlockWallet(self, ctx, wallet)
